@@ -789,17 +789,63 @@ func (rn *runner) doEnter(h uint64, r uint32) {
 	}
 }
 
+// kernelTurns: the number of times the kernel is made to pass through its select loop (one answered view request
+// each) while a consumer is waiting on its output channel, before the consumer concludes that nothing is offered.
+// Every turn in which the kernel has something for that consumer delivers it with probability >= 1/2 (Go's select
+// picks among the ready cases at random), and the turn after the view request is answered delivers it for certain;
+// no wall-clock assumption is made about how fast a loaded machine schedules the kernel goroutine.
+const kernelTurns = 12
+
+// awaitOut waits for one value the kernel offers on a consumer channel: a receiver goroutine stays ready while the
+// kernel is driven through its loop by barriers; only after that (and a short grace) the read counts as empty.
+func awaitOut[T any](rn *runner, ch <-chan T) (T, bool) {
+	res := make(chan T, 1)
+	stop := make(chan struct{})
+	fin := make(chan struct{})
+	go func() {
+		defer close(fin)
+		select {
+		case u := <-ch:
+			res <- u
+		case <-stop:
+		}
+	}()
+	var zero T
+	for i := 0; i < kernelTurns; i++ {
+		rn.barrier()
+		select {
+		case u := <-res:
+			<-fin
+			return u, true
+		default:
+		}
+	}
+	select {
+	case u := <-res:
+		<-fin
+		return u, true
+	case <-time.After(40 * time.Millisecond):
+	}
+	close(stop)
+	<-fin
+	select {
+	case u := <-res:
+		return u, true
+	default:
+	}
+	return zero, false
+}
+
 func (rn *runner) doSMRead() {
 	rn.barrier()
-	select {
-	case v := <-rn.smOut:
+	if v, ok := awaitOut(rn, rn.smOut); ok {
 		var vrv *tmconsensus.VersionedRoundView
 		if v.VRV.Height > 0 {
 			vrv = &v.VRV
 		}
 		rn.io = TL([]string{TN(3), rn.trOView(vrv), rn.trOView(v.JumpAheadRoundView)})
 		rn.stats["sm_read_value"]++
-	case <-time.After(40 * time.Millisecond):
+	} else {
 		rn.io = TL([]string{TN(5)})
 		rn.stats["sm_read_empty"]++
 	}
@@ -811,17 +857,16 @@ func (rn *runner) doGRead() {
 	rn.barrier()
 	got := false
 	for tries := 0; tries < 4 && !got; tries++ {
-		select {
-		case u := <-rn.gOut:
-			if u.Committing == nil && u.Voting == nil && u.NextRound == nil && u.NilVotedRound == nil {
-				continue // round-session changes only: not modelled
-			}
-			rn.io = TL([]string{TN(4), rn.trOView(u.Committing), rn.trOView(u.Voting), rn.trOView(u.NextRound), rn.trOView(u.NilVotedRound)})
-			rn.stats["gossip_read_value"]++
-			got = true
-		case <-time.After(40 * time.Millisecond):
-			tries = 4
+		u, ok := awaitOut(rn, rn.gOut)
+		if !ok {
+			break
 		}
+		if u.Committing == nil && u.Voting == nil && u.NextRound == nil && u.NilVotedRound == nil {
+			continue // round-session changes only: not modelled
+		}
+		rn.io = TL([]string{TN(4), rn.trOView(u.Committing), rn.trOView(u.Voting), rn.trOView(u.NextRound), rn.trOView(u.NilVotedRound)})
+		rn.stats["gossip_read_value"]++
+		got = true
 	}
 	if !got {
 		rn.io = TL([]string{TN(6)})
